@@ -64,7 +64,10 @@ Waiting(k) == {l \in pend : k \in l.keys}
 Subscribed(k) == {c \in Clients : k \in subs[c]}
 
 \* ------------------------------------------------------------------ store
-Publish(k, v, ty) ==
+\* echo = the publish entered through THIS node, which routed it to the leader and echoed the value locally
+\* (ConfigCmd::SetTmpValue) before the committed entry arrives: the step is the echo followed by the apply; listeners
+\* and subscribers are served by the apply exactly as without an echo
+Publish(k, v, ty, echo) ==
     LET exists == k \in DOMAIN cache
         same == exists /\ cache[k].content = v
         nty == IF ty = "" THEN (IF exists THEN cache[k].ctype ELSE "") ELSE ty
@@ -80,7 +83,7 @@ Publish(k, v, ty) ==
        /\ pend' = pend \ woken
        /\ nextHid' = nextHid + 1
        /\ UNCHANGED <<subs, now, usedL>>
-       /\ Step([op |-> "publish", key |-> KeyStr(k), k |-> k, v |-> v, ty |-> ty, hid |-> nextHid,
+       /\ Step([op |-> "publish", key |-> KeyStr(k), k |-> k, v |-> v, ty |-> ty, hid |-> nextHid, echo |-> echo,
                 answered |-> {[id |-> l.id, keys |-> {KeyStr(k)}] : l \in woken},
                 notify |-> IF notified = {} THEN <<>> ELSE <<[key |-> KeyStr(k), clients |-> notified]>>,
                 obs |-> [cache |-> [ks \in {KeyStr(x) : x \in DOMAIN cache'} |->
@@ -179,7 +182,8 @@ Disconnect(c) ==
 ItemSets == UNION {[ks -> Contents \cup {""}] : ks \in (SUBSET Keys) \ {{}}}
 
 Next ==
-    \/ \E k \in Keys, v \in Contents, ty \in Types \cup {""} : Publish(k, v, ty)
+    \/ \E k \in Keys, v \in Contents, ty \in Types \cup {""} : Publish(k, v, ty, FALSE)
+    \/ \E k \in Keys, v \in Contents : WithListeners /\ Publish(k, v, "", TRUE)
     \/ \E k \in Keys : Remove(k)
     \/ \E k \in Keys, v \in Contents : Import(k, v)
     \/ \E l \in Lids, items \in ItemSets, dt \in {0, 1, 100} : Listen(l, items, dt)
